@@ -174,4 +174,43 @@ PROPS["C03"] = dict(
     parts=[dict(engine="e1", harness="c03_doall")],
 )
 
+PROPS["C04"] = dict(
+    level="model_checking",
+    rule="two granularities on the real detectors (ring = "
+         "LocalTerminationDetection, tree = TreeTerminationDetection): "
+         "(1) c04_term_bfs: explicit-state BFS to a FIXPOINT over all "
+         "interleavings of detector calls by k=1..4 impersonated threads "
+         "(alphabet poll / report / work / give to next / give to previous / "
+         "re-arm with another k, hand-overs bounded), state = detector fields "
+         "+ ledger; invariants in every state: globalTermination() implies no "
+         "thread holds or has unreported work and is never retracted; from "
+         "every all-idle state round-robin idle reports reach termination "
+         "within (3k+2)k calls. (2) c04_termination: real threads running "
+         "the for_each-style loop with scripted hand-overs under the "
+         "schedule explorer (instruction granularity, <= bound deviations). "
+         "non-trivial = BFS states after >=1 hand-over or re-arm / distinct "
+         "traces with >= 1 deviation",
+    bound_note="BFS cells report depth_completed and are closed state "
+               "spaces (exhaustive for the stated k and hand-over budget); "
+               "E1 cells report bound_completed",
+    assumptions=E1_ASSUME + [
+        "BFS granularity is one detector call (calls are atomic there); "
+        "the window inside a call is covered by the E1 part only up to its "
+        "deviation bound"],
+    deadline=dict(quick=200, thorough=2400),
+    technique="explicit-state model checking of the real detector objects "
+              "(BFS to fixpoint over call interleavings, thread "
+              "impersonation) plus deviation-bounded schedule enumeration "
+              "(gsched) with real threads",
+    level_text="all reachable detector states for k<=4 threads and bounded "
+               "hand-overs are enumerated on the real objects with soundness "
+               "checked in each and bounded liveness from each idle state; "
+               "intra-call interleavings are enumerated up to d deviations",
+    level_note="k<=4, hand-over budget <=3 per loop, one re-arm; E1 part "
+               "<=4 threads, d=1-3",
+    design_ref="DESIGN.md 2.8, 7/C04",
+    parts=[dict(engine="e2", harness="c04_term_bfs", weight=1),
+           dict(engine="e1", harness="c04_termination", weight=2)],
+)
+
 NOT_APPLICABLE = {}
